@@ -59,6 +59,8 @@ type Sched struct {
 	Daemon    map[string]bool          // threads that may stay parked forever (idle library goroutines)
 	MayBlock  map[string]bool          // points whose action may really block (no enabledness predicate available): the thread is let into it and watched
 	BlockProbe time.Duration
+	SlowProbe  time.Duration
+	Blocks     int // how often a granted thread was found really blocked
 	nblocked  atomic.Int32
 	Override  map[string]func() bool   // enabledness by point name, overriding the hook's own predicate
 	Steps     []Step
@@ -91,6 +93,7 @@ func New() *Sched {
 		Daemon:    map[string]bool{},
 		MayBlock:  map[string]bool{},
 		BlockProbe: 300 * time.Microsecond,
+		SlowProbe:  10 * time.Millisecond,
 		Override:  map[string]func() bool{},
 		MaxSteps:  100000,
 		StuckWait: 5 * time.Second,
@@ -415,29 +418,15 @@ func (s *Sched) Run(choose Chooser) {
 		if terminal {
 			continue
 		}
+		// wait for pick to park again or finish.  If it does neither for a while it is inside a really
+		// blocking operation (expected at MayBlock points; elsewhere only when the code under test blocks
+		// somewhere no hook announces): it is marked blocked, and the others go on.
+		probe := s.SlowProbe
 		if s.MayBlock[st.Point] {
-			select {
-			case ev := <-s.events:
-				s.apply(ev)
-				if ev.th == pick {
-					if ev.kind == 0 && s.ParkHook != nil {
-						s.ParkHook(pick.name, pick.point)
-					}
-					continue
-				}
-				// somebody else's event: fall through to the normal wait below
-			case <-time.After(s.BlockProbe):
-				s.mu.Lock()
-				pick.blocked = true
-				s.nblocked.Add(1)
-				s.cur = nil
-				s.mu.Unlock()
-				last = ""
-				continue
-			}
+			probe = s.BlockProbe
 		}
-		// wait for pick to park again or finish
 		var timer *time.Timer
+		blocked := false
 	wait:
 		for {
 			var ev event
@@ -445,13 +434,13 @@ func (s *Sched) Run(choose Chooser) {
 			case ev = <-s.events:
 			default:
 				if timer == nil {
-					timer = time.NewTimer(s.StuckWait)
+					timer = time.NewTimer(probe)
 				}
 				select {
 				case ev = <-s.events:
 				case <-timer.C:
-					s.Stuck = fmt.Sprintf("thread %s granted at %s neither parked nor finished within %v", pick.name, st.Point, s.StuckWait)
-					return
+					blocked = true
+					break wait
 				}
 			}
 			s.apply(ev)
@@ -464,6 +453,15 @@ func (s *Sched) Run(choose Chooser) {
 		}
 		if timer != nil {
 			timer.Stop()
+		}
+		if blocked {
+			s.mu.Lock()
+			pick.blocked = true
+			s.nblocked.Add(1)
+			s.cur = nil
+			s.mu.Unlock()
+			s.Blocks++
+			last = ""
 		}
 	}
 }
